@@ -272,6 +272,9 @@ func c09Child(args []string) int {
 	// address-space safety net for the sandbox
 	_ = syscall.Setrlimit(syscall.RLIMIT_AS, &syscall.Rlimit{Cur: 6 << 30, Max: 6 << 30})
 	InitGrolNoMemLimit()
+	// the child never outlives its parent's patience (the parent gives up 90 s after the deadline and may itself be
+	// killed by the case watchdog, which would leave a non terminating child behind)
+	time.AfterFunc(time.Duration(durMs)*time.Millisecond+100*time.Second, func() { os.Exit(97) })
 	opts := repl.EvalStringOptions()
 	opts.MaxDepth = depth
 	opts.MaxDuration = time.Duration(durMs) * time.Millisecond
